@@ -151,6 +151,24 @@ def run(ctx):
                     if r2["out"].split(b"\0")[:-1] != [row[0].encode() for row in ro]:
                         ctx.oracle_fail("ordering by unselected keys differs from ordering by selected keys",
                                         {"argv": [q2], "selected_argv": [q_or], "tree": case["tree"]})
+            if t % 5 == 0:
+                # the order of absolute dates does not depend on the day the query runs: under a wall clock fixed on
+                # 29 February, on the last minute of a year, ... the ordered output is the same (D86: the comparator's
+                # fallback date was built from today's date and did not exist on 29 February)
+                qd = "select path, modified from . order by modified%s, path into list" % r.choice(["", " desc"])
+                plain = common.run_cli([qd], cwd=snap.root, scratch=scratch, tz=snap.tz)
+                for epoch in (1835438400, 1709164830, 1830297540, 1772323200):   # 2028-02-29 12:00, 2024-02-29 00:00:30, 2027-12-31 23:59, 2026-03-01 (UTC)
+                    env = common.fake_clock_env(epoch)
+                    if env is None:
+                        ctx.notes.append("clock shim could not be built: fixed-clock runs skipped")
+                        break
+                    ctx.case((t, qd, epoch))
+                    ctx.count("fixed_clock_runs")
+                    fk = common.run_cli([qd], cwd=snap.root, scratch=scratch, tz=snap.tz, extra_env=env)
+                    if common.panicked(fk) or fk["status"] != plain["status"] or fk["out"] != plain["out"]:
+                        ctx.oracle_fail("ORDER BY over a date column depends on the day the query runs", {"argv": [qd], "fake_epoch": epoch, "tz": snap.tz,
+                                        "tree": [n["rel"] for n in snap.nodes][:50]},
+                                        detail={"status": fk["status"], "err": fk["err"][:200].decode("utf-8", "replace")})
             common.rm_tree(snap.root)
     finally:
         common.rm_tree(scratch)
